@@ -184,7 +184,7 @@ a ray case when the crossing is on/next to an edge or vertex, the triangle is de
             "oracles: integer / rational squared-distance comparison (no sqrt), Cramer solve through vkit::refmath::det (Leibniz), clamped-parameter closed form plus a 257-point sampling of the segment; none calls the vek function it judges",
             "exact rational arithmetic (Rat over i128); irrational sqrt / i128 overflow poison the case, which is discarded and counted; Rat distances are therefore checked on Pythagorean configurations",
             "f32/f64 containment and collision are decided exactly only on the integer grid |coord| <= 1000: differences, squares and their sum (<= 1.2e7 < 2^24) are exact, IEEE sqrt is correctly rounded and monotone, fl(sqrt(R^2)) = R and fl(sqrt(R^2+1)) > R for every integer R < 4096 (1/(2R+1) > ulp(R)/2), so `sqrt(d2) <= R` equals `d2 <= R^2`",
-            "preconditions: radii >= 0; distinct centres for the collision vector; segments are either exactly degenerate (start == end, for which the code returns start) or have squared length >= 1/64 — vek treats 0 < |end-start|^2 <= T::epsilon() as degenerate, that band is excluded; ray-triangle determinants are exactly 0 or >= 1e-3 in magnitude (vek compares the determinant with T::epsilon(); Rat's epsilon is 2^-52)",
+            "preconditions: radii >= 0; distinct centres for the collision vector; segments are either exactly degenerate (start == end, for which the code returns start) or ordinary: the seg*-tiny checks scale the arrangements down to 2^-40 so that 0 < |end-start|^2 <= T::epsilon() is covered (the base seg* checks keep squared length >= 1/64); ray-triangle determinants are exactly 0 or >= 1e-3 in magnitude (vek compares the determinant with T::epsilon(); Rat's epsilon is 2^-52)",
             "the ray direction need not be normalised for the asserted statement (Some(t) with origin + t*direction the crossing point); a share of the cases uses exactly normalised (Pythagorean) directions",
             "float tolerances are k * eps(S) * scale with the k and scale stated at each comparison; max observed error/tolerance is recorded in the evidence",
         ],
